@@ -46,6 +46,7 @@ PROPERTY_MODULES = {
 # evidence and never counted among the discharged obligations; a *found* failing input is reported as a VIOLATION.
 STANDINS = {
     "C03": [{"mirror": "corpus_no_exception"}],
+    "C04": [{"mirror": "valid_output_bounded"}],
     "C05": [{"mirror": "corpus", "trait": "none"}],
     "C08": [{"mirror": "corpus", "trait": "cleanup"}],
     "C11": [{"mirror": "corpus", "trait": "symmetry"}],
